@@ -59,6 +59,7 @@ type transportPlan struct {
 
 type plan struct {
 	AuthEnabled bool          `json:"auth_enabled"`
+	UserTable   int           `json:"user_table"` // with AuthEnabled: usersOne, usersSeveral, usersNil, usersEmpty
 	Reqs        []reqPlan     `json:"reqs"`
 	Resps       []respPlan    `json:"resps"`        // indexed by the ordinal of the request as the origin receives it
 	Window      int           `json:"window"`       // max requests in flight from the client (pipelining depth)
@@ -66,7 +67,34 @@ type plan struct {
 	T           transportPlan `json:"t"`
 }
 
+// configured user table classes (only meaningful with AuthEnabled)
 const (
+	usersOne     = 0 // {alice}
+	usersSeveral = 1 // {carol, alice, bob}
+	usersNil     = 2 // Users == nil: nobody can ever authenticate
+	usersEmpty   = 3 // Users == []ServerUserCredentials{}: nobody can ever authenticate
+)
+
+// validTokens returns the Basic tokens that authenticate under the plan's configuration.
+func (p *plan) validTokens() []string {
+	if !p.AuthEnabled {
+		return nil
+	}
+	switch p.UserTable {
+	case usersOne:
+		return []string{goodToken}
+	case usersSeveral:
+		return []string{goodToken, bobToken}
+	}
+	return nil
+}
+
+const (
+	bobUser   = "bob"
+	bobPass   = "pw:with:colon"
+	bobToken  = "Ym9iOnB3OndpdGg6Y29sb24=" // base64("bob:pw:with:colon")
+	carolUser = "carol"
+	carolPass = ""
 	goodUser  = "alice"
 	goodPass  = "open sesame"
 	goodToken = "YWxpY2U6b3BlbiBzZXNhbWU=" // base64("alice:open sesame")
